@@ -61,7 +61,12 @@ impl Marking {
         for line in marking.lines() {
             documentation += style.prefix();
             documentation.push(' ');
-            documentation.push_str(line);
+            if style == MarkingStyle::Java {
+                // the text sits inside one block comment: it must not be able to close it
+                documentation.push_str(&line.replace("*/", "* /"));
+            } else {
+                documentation.push_str(line);
+            }
             documentation.push('\n');
         }
         documentation.push_str(style.end());
